@@ -579,7 +579,7 @@ func init() {
 			return s
 		},
 		func(r *hx.Rand, a string, nv func(string) string) Sel {
-			return Sel{Text: "introspection_" + a + `: __type(name: "` + hx.Pick(r, []string{"Query", "Box", "Thing"}) + `") { fields { name args { name type { ...T } } type { ...T } } inputFields { name type { ...T } } }`, Vars: nil}
+			return Sel{Text: "introspection_" + a + `: __type(name: "` + hx.Pick(r, []string{"Query", "Box", "Thing"}) + `") { fields { name args { name type { kind name ofType { kind name ofType { kind name ofType { kind name } } } } } type { kind name ofType { kind name ofType { kind name ofType { kind name } } } } } inputFields { name type { kind name ofType { kind name ofType { kind name ofType { kind name } } } } } }`}
 		},
 	)
 }
@@ -749,6 +749,8 @@ func genOp(r *hx.Rand) (QSpec, Op) {
 	return q, op
 }
 
+const typeRefSel = "kind name ofType { kind name ofType { kind name ofType { kind name } } }"
+
 // handOps: fixed operations that every run evaluates (boundary shapes the generator reaches rarely).
 func handOps() []Op {
 	sp := func(s string) *string { return &s }
@@ -798,6 +800,31 @@ func handOps() []Op {
 		{Query: "\ufeff{ __typename }"},
 		{Query: "{\r\n  nope\r\n}"},
 		{Query: "query Q { __typename }", OpName: "Q", Vars: sp(`{"unused": [1, 2, 3]}`)},
+		// asymmetric wrapper chains: [T!] vs [T]!
+		{Query: "{ a: itemsA(withNull: true) { id } b: itemsB(withNull: true) { id } }"},
+		{Query: "{ itemsA { id } itemsB { name } grid(withNull: true) { id } }"},
+		{Query: "{ palette(withNull: true) paletteB(withNull: true) }"},
+		{Query: "{ paint }"},
+		{Query: "{ paintB }"},
+		{Query: "{ a: paint(colors: [RED, null]) }"},
+		{Query: "{ b: paintB(colors: [RED, null]) }"},
+		{Query: "{ a: paint(colors: null) }"},
+		{Query: "{ b: paintB(colors: null) }"},
+		{Query: "query($c: [Color!]) { paint(colors: $c) }", Vars: sp(`{"c": ["RED", null]}`)},
+		{Query: "query($c: [Color]!) { paintB(colors: $c) }", Vars: sp(`{"c": ["RED", null]}`)},
+		{Query: "query($c: [Color]!) { paint(colors: $c) }", Vars: sp(`{"c": ["RED"]}`)},
+		{Query: "query($c: [Color!]) { paintB(colors: $c) }", Vars: sp(`{"c": ["RED"]}`)},
+		{Query: "{ insA(ins: [{a: 1}, null]) }"},
+		{Query: "{ insB(ins: [{a: 1}, null]) }"},
+		{Query: "{ insA insB }"},
+		{Query: "{ a: echoBox(box: {req: [RED, null]}) b: echoBox(box: {}) c: echoBox(box: {req: [], items: [null]}) }"},
+		{Query: "query($b: Box) { echoBox(box: $b) }", Vars: sp(`{"b": {"req": null}}`)},
+		{Query: "query($b: Box) { echoBox(box: $b) }", Vars: sp(`{"b": {"req": ["RED", null], "items": [{"a": 1}], "deep": [["BLUE", null]]}}`)},
+		{Query: "query($b: Box) { echoBox(box: $b) }", Vars: sp(`{"b": {"req": [], "items": [null], "deep": [null]}}`)},
+		{Query: `{ __type(name: "Query") { fields { name args { name type { ` + typeRefSel + ` } } type { ` + typeRefSel + ` } } } }`},
+		{Query: `{ __type(name: "Box") { inputFields { name type { ` + typeRefSel + ` } } } }`},
+		{Query: "{ gated gatedB gatedAB featuresSeen }"},
+		{Query: "{ gatedAB(x: 3) requestCost }"},
 	}
 }
 
